@@ -198,6 +198,9 @@ type Runtime struct {
 	never      chan struct{}
 	serveDone  bool
 	serveErr   error
+	L2         *SimListener // second listener of the same Server (SchedCase.Listeners > 1)
+	serve2Done bool
+	serve2Err  error
 	userParams wire.Parameters
 	paramsCopy map[string]string
 	closerEv   [][]Event
@@ -316,6 +319,15 @@ func (rt *Runtime) buildServer() (*wire.Server, error) {
 	opts := []wire.OptionFn{wire.Logger(slog.New(discardHandler{}))}
 	if cfg.Limit != 0 {
 		opts = append(opts, wire.MessageBufferSize(cfg.Limit))
+	}
+	if cfg.AuthFirst == "accept-all" && cfg.Auth != "" {
+		opts = append(opts, wire.SessionAuthStrategy(func(ctx context.Context, w *buffer.Writer, r *buffer.Reader) (context.Context, error) {
+			c := rt.connOf(ctx)
+			c.rec("auth-custom", "replaced accept-all strategy ran")
+			w.Start(types.ServerAuth)
+			w.AddInt32(0)
+			return ctx, w.End()
+		}))
 	}
 	switch cfg.Auth {
 	case "":
@@ -480,6 +492,7 @@ func newRuntime(c *Case, scheduled bool) *Runtime {
 	simSleepers.Store(0)
 	rt.acceptTask = rt.K.AddTask("accept")
 	rt.L = newSimListener(rt)
+	rt.L.task = rt.acceptTask
 	for i := range c.Conns {
 		sc := newSimConn(rt, i, &c.Conns[i])
 		sc.task = rt.K.AddTask(fmt.Sprintf("conn%d", i))
@@ -493,6 +506,12 @@ func (rt *Runtime) finish(res *Result) {
 	res.ServeReturned = rt.serveDone
 	if rt.serveErr != nil {
 		res.ServeErr = rt.serveErr.Error()
+	}
+	if rt.L2 != nil {
+		res.ServeReturned = res.ServeReturned && rt.serve2Done
+		if rt.serve2Err != nil {
+			res.ServeErr += " second Serve: " + rt.serve2Err.Error()
+		}
 	}
 	res.Accepts = rt.L.Accepts
 	res.Panics = rt.Panics
@@ -603,6 +622,11 @@ func RunScheduled(c *Case) *Result {
 			clientTask[i] = rt.K.AddTask(fmt.Sprintf("client%d", i))
 		}
 	}
+	if c.Sched != nil && c.Sched.Listeners > 1 {
+		// the same Server serves a second listener (its accept loop is one more task)
+		rt.L2 = newSimListener(rt)
+		rt.L2.task = rt.K.AddTask("accept2")
+	}
 	rt.K.Configure(c.Sched, c.Sub)
 	if c.Sched != nil && c.Sched.CloseFirst {
 		func() {
@@ -619,6 +643,12 @@ func RunScheduled(c *Case) *Result {
 		rt.serveErr = srv.Serve(rt.L)
 		rt.serveDone = true
 	}()
+	if rt.L2 != nil {
+		go func() {
+			rt.serve2Err = srv.Serve(rt.L2)
+			rt.serve2Done = true
+		}()
+	}
 	for _, cs := range rt.Conns {
 		rt.L.offer <- cs.SimConn
 	}
@@ -663,7 +693,7 @@ func RunScheduled(c *Case) *Result {
 	// a real (not suppressed) join: every task is durably blocked or gone, and
 	// this Wait is the happens-before edge under which the results are read
 	bubbleWait()
-	res.ServeDoneBeforeTeardown = rt.serveDone
+	res.ServeDoneBeforeTeardown = rt.serveDone && (rt.L2 == nil || rt.serve2Done)
 	res.Stuck = rt.K.ParkedPoints()
 	res.Schedule = rt.K.Recorded()
 	res.Trace = rt.K.trace
